@@ -43,6 +43,10 @@ def units(tier):
                 pp = dict(p)
                 pp["unit"] = unit
                 progs.append(pp)
+    # every unit context of the subset (typed functions, RESULT clauses, ENTRY ...)
+    for u in T.UNITS:
+        if "one" in T.flags(u) and u[0] not in ("program", "subroutine", "function", "module_spec") and not u[1].endswith("end function"):   # fparser1 completes a bare END statement with the unit name
+            progs.append(dict(unit=u[0], spec=["int_decl"], exec=["assign"] if "{EXEC}" in u[1] else []))
     # nesting of the block constructs of the subset
     cons = [c[0] for c in T.CONS if "one" in T.flags(c)]
     for a in cons:
